@@ -907,7 +907,8 @@ class FlippedEncoding(LazyIndexMap):
             )
 
     def _to_base_indices(self, indices):
-        indices = indices.copy()
+        # a signed copy: the arithmetic below must not wrap for unsigned indices
+        indices = np.array(indices, dtype=np.int64)
         shape = self.shape
         for a in self._axes:
             indices[:, a] *= -1
